@@ -14,11 +14,20 @@ def expected (known : Bool) (e : Err) : Ctr :=
     invalidConsistency := if e = .invalidProof then 1 else 0
     inconsistent := if e = .rootMismatch then 1 else 0 }
 
-theorem signAndSet_ctr (cfg : Cfg) (env : Env) (n : Note.Note) :
-    (signAndSet cfg env n { attempt := 1 }).ctr = expected true (signAndSet cfg env n { attempt := 1 }).err := by
-  unfold signAndSet expected
-  repeat' split
-  all_goals simp_all
+theorem signAndSet_ctr (cfg : Cfg) (env : Env) (l : LogInfo) (n : Note.Note) :
+    (signAndSet cfg env l n { attempt := 1 }).ctr = expected true (signAndSet cfg env l n { attempt := 1 }).err := by
+  unfold signAndSet
+  cases cfg.signers n.text with
+  | none => simp [expected]
+  | some outs =>
+    simp only
+    cases Note.sign n outs with
+    | none => simp [expected]
+    | some signed =>
+      simp only
+      by_cases hp : (parse l signed).isNone = true
+      · simp [hp, expected]
+      · by_cases hs : env.setErr = true <;> simp [hp, hs, expected]
 
 /-- one call: the four counters move exactly as the verdict says, whatever the request, the stored
     state and the storage faults -/
@@ -40,7 +49,7 @@ theorem C20_counters_exact_step (cfg : Cfg) (env : Env) (id : Bytes) (old : Nat)
       · simp only [hw, Bool.false_eq_true, if_false]
         cases hprev : env.prev with
         | readErr => simp [expected]
-        | notFound => exact signAndSet_ctr cfg env nn
+        | notFound => exact signAndSet_ctr cfg env l nn
         | found raw =>
           simp only
           cases hpp : parse l raw with
@@ -49,7 +58,7 @@ theorem C20_counters_exact_step (cfg : Cfg) (env : Env) (id : Bytes) (old : Nat)
             obtain ⟨pv, pn'⟩ := pp
             simp only
             cases hd : Core.decide cfg.H (toCore pv) old (toCore nx) proof <;> simp [expected]
-            exact signAndSet_ctr cfg env nn
+            exact signAndSet_ctr cfg env l nn
 
 /-- nothing else moves: an unknown log moves no counter; bad signature, stale or too-large old size
     and storage errors move only the attempt counter -/
